@@ -400,7 +400,21 @@ def factory_history(seed, idx, rec):
     seen, by_task = {}, {}
     try:
         pool = [gen_make_request(rng) for _ in range(rng.randint(2, 6))]
-        for step in range(rng.randint(2, 12)):
+        # requests that differ from another one only by the *role* of the
+        # same tasks (hard here, soft there), or only by one field
+        for req in list(pool):
+            if rng.random() < 0.5 and (req['deps'] or req['soft_deps']):
+                twin = dict(req)
+                twin['deps'], twin['soft_deps'] = req['soft_deps'], \
+                    req['deps']
+                pool.append(twin)
+            if rng.random() < 0.3:
+                twin = dict(req)
+                field = rng.choice(['extra_args', 'kwargs',
+                                    'subprocess_args', 'deps'])
+                twin[field] = gen_make_request(rng)[field]
+                pool.append(twin)
+        for step in range(rng.randint(2, 14)):
             req = rng.choice(pool)
             sig = make_signature(req)
             rec.count('factory_requests')
